@@ -39,7 +39,8 @@ Check(ev, k) ==
   IN
   (IF "C07" \in Clauses THEN
      (IF ev.out # "returned" THEN {F(k, ev, "AlwaysReturns: validation ended with " \o ev.out \o " (" \o ev.mode \o ")", "returned", ev.out, "")} ELSE {})
-     \cup (IF ev.out = "returned" /\ ~SV!IsRun(ev.phases, ev.mode, ev.circ) THEN {F(k, ev, "the phase trace is not a run of the SpecValidator phase machine (" \o ev.mode \o ")", "a run", ToString(ev.phases), "")} ELSE {})
+     \cup (IF ev.out = "returned" /\ ~SV!IsRunCore(ev.phases) THEN {F(k, ev, "the phase trace does not end with the return bookkeeping, or an error was taken back (" \o ev.mode \o ")", "a run ending with return, errors only growing", ToString(ev.phases), "")} ELSE {})
+     \cup (IF ev.out = "returned" /\ SV!IsRunCore(ev.phases) /\ ~SV!IsRun(ev.phases, ev.mode, ev.circ) THEN {F(k, ev, "the phase trace is not a run of the SpecValidator phase machine (" \o ev.mode \o ")", "a run", ToString(ev.phases), "model-drift")} ELSE {})
    ELSE {})
   \cup
   (IF "C10" \in Clauses /\ ev.out = "returned" THEN
